@@ -177,7 +177,7 @@ def alpha_of(key, T):
 # ---------------------------------------------------------------------------
 # case generators
 # ---------------------------------------------------------------------------
-def gen_case(rng, ndim, mat, nsteps=None, uniform=False, big=False, tiny=False):
+def gen_case(rng, ndim, mat, nsteps=None, uniform=False, big=False, tiny=False, zero_return=False):
     """random tube + temperature/pressure/displacement history.
     The two inner node rings keep their temperature for the first steps (zero-if-unchanged),
     and the whole first step of some histories changes nothing."""
@@ -208,6 +208,9 @@ def gen_case(rng, ndim, mat, nsteps=None, uniform=False, big=False, tiny=False):
     if uniform:
         lvl = [Tbase] + [Tbase + span * rng.uniform(0.1, 1.0) for _ in range(n)]
         T = np.array([np.full((nr, nt, nz), lv) for lv in lvl])
+    if zero_return:
+        # temperatures measured from a zero reference: 0 -> T(r,theta,z) -> exactly 0 again (-> a second excursion)
+        T = np.array([(0.0 if k % 2 == 0 else 1.0) * span * (0.2 + f) for k in range(n + 1)])
     if tiny:
         # a slow ramp stored with very fine time stepping: every node changes by 0.2e-5 .. 0.8e-5 of its
         # temperature per stored step (a few mK) -- small changes are changes
@@ -705,6 +708,7 @@ def run(ctx):
         # slow ramp in many tiny stored steps (mK per step)
         for mat in ("Econst",) if quick else ("Econst", "316H/elastic_model"):
             explore("book", gen_case(rng, ndim, mat, nsteps=6, tiny=True), "book-tiny-steps/%dD/%s" % (ndim, mat))
+        explore("book", gen_case(rng, ndim, "Econst", nsteps=3, zero_return=True), "book-return-to-zero-temperature/%dD" % ndim)
         # per-step API from a fresh state created without a time index (as the upstream tests drive it)
         explore("direct", gen_case(rng, ndim, "Econst"), "direct/%dD/Econst" % ndim)
         # free expansion
